@@ -1,5 +1,6 @@
 //! C16: text strings, one-byte encodings, text extraction.  Same case kinds as coq/Run/RunC16.v:
 //!   (ts (u ..)) (dts <obj>) (u8 (u ..)) (u16 (u ..)) (table <fontdict>) (font <fontdict> xBYTES (u ..))
+//!   (rt <fontdict> (u ..)) (rtall <fontdict>)
 //!   (extract (pages (page (fonts (xNAME <dict>)..) (ops (xOPERATOR <obj>..)..))..) (nums n..) [(expect (u ..))])
 //! Only lopdf's public API is used.  The verdict is the direct evaluation of the property on the
 //! implementation (round trips, "decoding never fails", re-encoding stability, shown text is
@@ -281,6 +282,80 @@ fn main() {
                     verdict,
                 )
             }
+            "rt" => {
+                // encode_text then decode_text: text over the table's repertoire comes back unchanged, characters the
+                // table does not hold are dropped and nothing else happens to the rest
+                let d = a.first().and_then(|d| dict_of_entries(d.args()));
+                let s = a.get(1).and_then(string_of_sx);
+                let (d, s) = match (d, s) {
+                    (Some(d), Some(s)) => (d, s),
+                    _ => return bad(),
+                };
+                let doc = Document::new();
+                let e = d.get_font_encoding(&doc);
+                let enc = match &e {
+                    Ok(enc) => enc,
+                    Err(_) => return (Sx::tagged("rt", vec![enc_sx(&e)]), "ok".into()),
+                };
+                let en = Document::encode_text(enc, &s);
+                let de = Document::decode_text(enc, &en);
+                let mut verdict = "ok".to_string();
+                if let Encoding::OneByteEncoding(t) = enc {
+                    let want: String = s
+                        .chars()
+                        .filter(|c| (*c as u32) < 0x10000 && t.iter().any(|cell| *cell == Some(*c as u32 as u16)))
+                        .collect();
+                    let in_rep = want == s;
+                    match &de {
+                        Ok(got) if *got == want => {}
+                        Ok(got) if in_rep => verdict = format!("FAIL text {:?} over the repertoire is encoded as {:02x?} and decodes to {:?}", s, en, got),
+                        Ok(got) => verdict = format!("FAIL {:?} is encoded as {:02x?} and decodes to {:?}, expected {:?}", s, en, got, want),
+                        Err(e) => verdict = format!("FAIL decoding encoded text failed: {}", err_class(e)),
+                    }
+                    if en.len() != want.chars().count() {
+                        verdict = format!("FAIL {:?} is encoded in {} bytes for {} characters of the repertoire", s, en.len(), want.chars().count());
+                    }
+                }
+                (
+                    Sx::tagged("rt", vec![enc_sx(&e), Sx::tagged("ok", vec![Sx::bytes(&en)]), res_sx(&de, |t| ustr(t))]),
+                    verdict,
+                )
+            }
+            "rtall" => {
+                let d = match a.first().and_then(|d| dict_of_entries(d.args())) {
+                    Some(d) => d,
+                    None => return bad(),
+                };
+                let doc = Document::new();
+                let e = d.get_font_encoding(&doc);
+                match &e {
+                    Ok(enc @ Encoding::OneByteEncoding(t)) => {
+                        // every defined cell, in code order (no cell is a surrogate: checked by the table case)
+                        let units: Vec<u16> = t.iter().filter_map(|c| *c).collect();
+                        let s = String::from_utf16_lossy(&units);
+                        let en = Document::encode_text(enc, &s);
+                        let de = Document::decode_text(enc, &en);
+                        let mut verdict = "ok".to_string();
+                        if de.as_ref().ok() != Some(&s) {
+                            verdict = "FAIL the repertoire of the table does not survive encode_text + decode_text".into();
+                        }
+                        // character by character: the code chosen for a character decodes to that character
+                        for c in s.chars() {
+                            let one = c.to_string();
+                            let b = Document::encode_text(enc, &one);
+                            let back = Document::decode_text(enc, &b);
+                            if b.len() != 1 || back.as_ref().ok() != Some(&one) {
+                                verdict = format!("FAIL {:?} is encoded as {:02x?} which decodes to {:?}", one, b, back.as_ref().map_err(err_class));
+                            }
+                        }
+                        (
+                            Sx::tagged("rtall", vec![enc_sx(&e), ustr(&s), Sx::bytes(&en), res_sx(&de, |t| ustr(t))]),
+                            verdict,
+                        )
+                    }
+                    _ => (Sx::tagged("rtall", vec![enc_sx(&e)]), "ok".into()),
+                }
+            }
             "extract" => {
                 let pages = match a.first() {
                     Some(p) if p.tag() == Some("pages") => p.args(),
@@ -307,25 +382,43 @@ fn main() {
                         verdict = format!("FAIL shown text {:?} is extracted as {:?}", want, text.as_ref().map_err(err_class));
                     }
                 }
-                // the same after save_to + load_mem
-                let mut buf = Vec::new();
-                match doc.save_to(&mut buf) {
-                    Err(e) => verdict = format!("FAIL save_to failed: {}", e),
-                    Ok(()) => match Document::load_mem(&buf) {
-                        Err(e) => verdict = format!("FAIL load_mem of the saved document failed: {}", err_class(&e)),
-                        Ok(doc2) => {
-                            let text2 = doc2.extract_text(&nums);
-                            let chunks2 = doc2.extract_text_chunks(&nums);
-                            let same = res_sx(&text, |t| ustr(t)) == res_sx(&text2, |t| ustr(t)) && chunks_sx(&chunks) == chunks_sx(&chunks2);
-                            if !same {
-                                verdict = format!(
-                                    "FAIL extraction differs after save and reload: {:?} vs {:?}",
-                                    text.as_ref().map_err(err_class),
-                                    text2.as_ref().map_err(err_class)
-                                );
+                // the same after save_to + load_mem: as saved, and with the streams compressed before saving.
+                // When the case carries the expected text, the reloaded document is held against it directly.
+                for compressed in [false, true] {
+                    let how = if compressed { "compress + save and reload" } else { "save and reload" };
+                    if compressed {
+                        doc.compress();
+                    }
+                    let mut buf = Vec::new();
+                    match doc.save_to(&mut buf) {
+                        Err(e) => verdict = format!("FAIL save_to failed: {}", e),
+                        Ok(()) => match Document::load_mem(&buf) {
+                            Err(e) => verdict = format!("FAIL load_mem of the saved document failed: {}", err_class(&e)),
+                            Ok(doc2) => {
+                                let text2 = doc2.extract_text(&nums);
+                                let chunks2 = doc2.extract_text_chunks(&nums);
+                                if let Some(want) = &expect {
+                                    if text2.as_ref().ok() != Some(want) {
+                                        verdict = format!(
+                                            "FAIL after {} shown text {:?} is extracted as {:?}",
+                                            how,
+                                            want,
+                                            text2.as_ref().map_err(err_class)
+                                        );
+                                    }
+                                }
+                                let same = res_sx(&text, |t| ustr(t)) == res_sx(&text2, |t| ustr(t)) && chunks_sx(&chunks) == chunks_sx(&chunks2);
+                                if !same && verdict == "ok" {
+                                    verdict = format!(
+                                        "FAIL extraction differs after {}: {:?} vs {:?}",
+                                        how,
+                                        text.as_ref().map_err(err_class),
+                                        text2.as_ref().map_err(err_class)
+                                    );
+                                }
                             }
-                        }
-                    },
+                        },
+                    }
                 }
                 (res, verdict)
             }
